@@ -2,11 +2,22 @@
 
 package router
 
-import "syscall"
+import (
+	"context"
+	"net"
+	"syscall"
+)
 
 // Add-only hook for the C17 correspondence check (kind sockopts): the REAL controlSocket callback for a
 // SocketConfig, with the internal TCP_USER_TIMEOUT field (set by listen() / initUpstream) given in ms.
 func VerifC17ControlSocket(opt SocketConfig, tcpUserTimeoutMs uint) func(network, address string, c syscall.RawConn) error {
 	opt._TCP_USER_TIMEOUT = tcpUserTimeoutMs
 	return controlSocket(opt)
+}
+
+// VerifC17Listen is (*router).listen(cfg) on a router that has only a context: the stream listener socket exactly as
+// the servers open it (socket options of cfg.Socket + the TCP_USER_TIMEOUT constant of listen()).
+func VerifC17Listen(cfg *ServerConfig) (net.Listener, error) {
+	r := &router{ctx: context.Background()}
+	return r.listen(cfg)
 }
